@@ -448,6 +448,21 @@ Example f64_run_x :
   (model_check c, spec_check c) = (true, true).
 Proof. vm_compute. reflexivity. Qed.
 
+(** The write-out of the inverse transform on its own ([OInvS] / [OInvSX]): the spectrum of [-15981; 640; 29] scaled by
+    2^-6 is the spectrum of [-249.70..; 10; 0.45..]; Rust returned [-250; 10; 0; 0], on the second object
+    [5;5;5] + [-3; -1] for [-164; -41] / 64, and through the n = 1 branch 7 + (-3).  A write-out that truncated, or
+    rounded -2.5625 to -2, is rejected by [spec_check]. *)
+Example f64_run_round :
+  let c := mkcase rust_table8
+    [OUpd 8; OInvS [-15981; 640; 29]%Z 4 6 [0; 0; 0; 0]%Z [-250; 10; 0; 0]%Z; OSwap;
+     OInvSX [-164; -41]%Z 2 6 [5; 5; 5]%Z [2; 4; 5]%Z; OInvS [-164]%Z 1 6 [7]%Z [4]%Z] in
+  (model_check c, spec_check c) = (true, true).
+Proof. vm_compute. reflexivity. Qed.
+Example f64_round_rejected :
+  spec_check (mkcase rust_table8 [OInvS [-164]%Z 1 6 [7]%Z [5]%Z]) = false /\
+  spec_check (mkcase rust_table8 [OInvS [-15981; 640; 29]%Z 4 6 [0; 0; 0; 0]%Z [-249; 10; 0; 0]%Z]) = false.
+Proof. split; vm_compute; reflexivity. Qed.
+
 (** instances of the hypotheses of c04_shape / c04_history_independent: reachable states of both
     instances, a power-of-two size *)
 Example reach_f64 : reach fops (tw_of_table (map c_of_bits rust_table4))
